@@ -249,7 +249,7 @@ func init() {
 			if !w.Env.Quick() {
 				F = 5
 			}
-			words([]string{"(", ")", `"`, "a", "+", "[", "]", ".", ",", "1"}, F, func(x string) {
+			words([]string{"(", ")", `"`, "a", "+", "[", "]", ".", ",", "1", "/"}, F, func(x string) {
 				id := fmt.Sprintf("fnchunk/%q", x)
 				w.Case(id, func(c *C) {
 					c.Distinct("all", id)
